@@ -181,6 +181,8 @@ def dt_worker(tier):
                 continue
             ok, d = e4.recs_match(o["recs"], sc, e4.spec_for(sc))
             out["results"].append(_res(f"integrate:t_max // dt + 1 columns, column k = k steps of the step function with exactly the caller's delta_t = {sc.dt} ms[{lab}]", ok, d))
+            if not ok:
+                out["results"][-1]["model"] = {"scenario": e4.scenario_dict(sc)}
     except Exception as e:
         out["error"] = f"{type(e).__name__}: {e}\n{traceback.format_exc(limit=8)}"
     return out
@@ -213,6 +215,10 @@ def native_dt():
 
 
 def replay_dt(p):
+    m = p.get("model") or {}
+    if m.get("scenario"):
+        from . import e4 as _e4
+        return _e4.native_replay(m["scenario"])
     return native_dt()
 
 
@@ -264,7 +270,10 @@ def main(tier):
             ck.add(r)
             if r["status"] == "refuted":
                 rp = native_dt()
-                ck.violation(r["name"], {"solver": r["backend"], "solver_output": r["detail"], "kind": "c15", "replay_module": "jxverif.props.C15", "replay_fn": "replay_dt", "replay": rp},
+                if not rp.get("reproduced") and (r.get("model") or {}).get("scenario"):
+                    from . import e4 as _e4
+                    rp = _e4.native_replay(r["model"]["scenario"])
+                ck.violation(r["name"], {"solver": r["backend"], "solver_output": r["detail"], "kind": "c15", "replay_module": "jxverif.props.C15", "replay_fn": "replay_dt", "replay": rp, "model": r.get("model", {})},
                              reproduced=rp.get("reproduced", False))
         ck.add_function("jaxley.integrate.integrate (time axis: every step uses the caller's delta_t)", "body discharged" if not any(r["status"] == "refuted" for r in o2[1]["results"]) else "body NOT discharged", len(o2[1]["results"]))
     for can, oc in zip(CANARIES, outs[1:]):
